@@ -163,7 +163,12 @@ CHECKS = {
                   "the program leaves exactly what Codec.recover_bytes computes. (5) Migrate of a segment (migrate_prog: remove the index, "
                   "re-encode into <log>.migrate, rename, index.Write; bytes and steps compared with the real Segment.Migrate): for a "
                   "clean segment, after any k steps and any part of an append in flight the segment passes Check and its log is the "
-                  "encoding of exactly the same messages, in the old or the new version (migrate_crash_safe). Tied to /repo by "
+                  "encoding of exactly the same messages, in the old or the new version (migrate_crash_safe). The whole directory, at the level of records (CrashOpen.v): a directory all of whose segments are well formed except that the "
+                  "index file of the newest segment holds ANYTHING (missing, a prefix, stale items - what a crash during a Publish, a "
+                  "rollover or an index write leaves) opens with Recover to a handle that satisfies the log invariant and shows exactly "
+                  "the records of the log files (crash_open_recovers); hence a Publish cut short after any number k of complete records, "
+                  "in any reachable state, with the rollover it required, reopens to exactly the log before it plus the first k messages "
+                  "of the batch with the offsets Publish assigns (publish_crash_recovers). Tied to /repo by "
                   "the FS tap (tag verif): 40+ workloads (publish batches with rollover, all delete shapes, reopen with Recover, migrate), "
                   "the file-system steps of every Delete and every Publish compared with the programs CrashDir.delete_prog / publish_prog compute, a directory "
                   "image after every file-system step plus torn variants of every append; each image is opened with Recover on the "
@@ -171,8 +176,10 @@ CHECKS = {
                   "(published-and-not-deleted, prefix of in-flight batch, delete all-or-nothing), views agree, NextOffset monotone, "
                   "second Recover identical, append + Check + recover again. Known findings F6 and F14; five other defects were fixed.",
              ref='6/C05', technique='Coq proof (torn-append recovery on bytes; crash-safety of the swap programs on the directory) + exhaustive crash-image enumeration through an FS tap',
-             note="The byte-level theorems are about one segment; that the directory-level and the byte-level statements compose over a "
-                  "whole multi-segment directory is exercised by the crash harness (every FS step of 45+ workloads), not proved. " + COMMON_NOTE),
+             note="The byte-level theorems are about one segment's files; over a whole multi-segment directory the composition is proved at the "
+                  "level of records for Publish (CrashOpen.v) and of whole segments for Delete (CrashDir.v); that a torn record is cut by "
+                  "Recover is the byte-level theorem, and the step from bytes to records in a multi-segment directory is exercised by the "
+                  "crash harness (every FS step of 45+ workloads), not proved. " + COMMON_NOTE),
  'C06': dict(text="Partial. Proved (Coq): a clean log file cut at ANY byte at or after its header (what a power loss leaves when it keeps a "
                   "prefix at least as long as the fsynced length) is recovered to exactly the records lying entirely below the cut: a prefix "
                   "of what was written, containing every record below the synced length; the result is clean (Check passes, Recover "
